@@ -259,7 +259,7 @@ PRINT_NOT_COVERED = ["prints with arguments (substitution order, too many argume
 PMIR = lambda: SmtTask("c15_print_mir", "c15_print.py", quick=True, timeout=1500, args=["quick"], thorough_args=[])
 PMIR_FUNCS = ["MIR/z3: interpreter::eval_print, heap::{Pointer,HeapObject,ArrayInstance,ObjectInstance}::evaluate_as_string, Heap::dereference, "
               "OperandStack::{pop_reverse_sequence,push}, InstructionPointer::bump"]
-PMIR_BOUNDS = ["MIR/z3 print task: 9 (quick) / 16 (thorough) concrete format strings (0-3 placeholders, every escape, unknown escapes, two- and three-byte characters, "
+PMIR_BOUNDS = ["MIR/z3 print task: 11 (quick) / 18 (thorough) concrete format strings (0-3 placeholders, every escape, unknown escapes, two- and three-byte characters, "
                "too few / too many arguments) x 0-3 arguments; one argument: any Pointer, references to any of 5 heap cells (array of two leaves, object with fields "
                "declared b then a and any primitive parent, object whose parent is that object, empty array, array holding an array), leaf kinds and values symbolic; "
                "several arguments: primitives, the array of two integers, the empty array; the output is compared token by token with the property's definition"]
@@ -308,7 +308,7 @@ COMPILE_NOT_COVERED = ["scope sequences with two global definitions or three let
 CMIR = lambda which: SmtTask("c02_compile_mir", "c02_compile.py", quick=True, timeout=1800, args=[which])
 CMIR_FUNCS = ["MIR/z3: <AST as Compiled>::compile_into (all 23 arms, recursively), compile_function_definition, LabelGenerator / LabelGroup, "
               "Environment::*, ConstantPool::{register,find,push}, Globals::register, Code::{emit,emit_unless,extend}, AST constructors used by the compound-array rewrite"]
-CMIR_BOUNDS = ["MIR/z3 compiler task: 47 expression templates covering every arm with several children (calls, print, object, array with simple / compound / "
+CMIR_BOUNDS = ["MIR/z3 compiler task: 50 expression templates covering every arm with several children (calls, print, object, array with simple / compound / "
                "nested initializers, conditional, loop, block, field and array access / assignment, let / assign, shadowing), nesting depth <= 3, each in 4 "
                "contexts (value kept / discarded at top level, in a block, in a function); integer and boolean literals symbolic, names and shapes concrete; "
                "the enumerated paths are proved to cover all literal values (z3), the executor's output is compared with the natively compiled program on every template"]
@@ -425,7 +425,7 @@ def c13():
         "prescribe (left to right, initializer re-executed per element, only the taken branch, loop condition once more at exit) equals the trace of the "
         "emitted code on a reference stack machine, for the run-time choices listed per template (sizes 0-3, both branch outcomes, 0-2 loop iterations)"]
     p.outside = VM_OUTSIDE + COMPILE_OUTSIDE + ["run-time choices other than the listed ones; the trace comparison runs the references on concrete choices (the compile step is symbolic)"]
-    p.not_covered = VM_NOT_COVERED + ["expression shapes outside the 47 templates"]
+    p.not_covered = VM_NOT_COVERED + ["expression shapes outside the 50 templates"]
     return p
 
 
